@@ -209,6 +209,28 @@ func init() {
 		}
 		for i := 0; i < n; i++ {
 			cs := &c19Case{}
+			if i%5 == 1 { // entries in three consecutive seconds, and more of them about 1200 s later: the oldest second of the look-back window
+				for p := 0; p < 3; p++ {
+					ph := c19Phase{AdvanceSec: 1}
+					for k := 0; k < 5; k++ {
+						ph.Payloads = append(ph.Payloads, fmt.Sprintf("old %d/%d", p, k))
+					}
+					cs.Phases = append(cs.Phases, ph)
+				}
+				late := c19Phase{AdvanceSec: 1198 + r.Intn(2)}
+				for k := 0; k < 3; k++ {
+					late.Payloads = append(late.Payloads, fmt.Sprintf("late %d", k))
+				}
+				cs.Phases = append(cs.Phases, late)
+				for k := 0; k < 3; k++ {
+					cs.Lists = append(cs.Lists, c19List{FromIssued: 15 + k, Max: 1000}) // the late entries are the last three issued
+				}
+				cs.Lists = append(cs.Lists, c19List{FromIssued: -1, BackSec: 0, Max: 1000}, c19List{FromIssued: -1, BackSec: 1, Max: 1000})
+				c.Pending(cs)
+				c19Run(cs, r)
+				emit(cs)
+				continue
+			}
 			for p := 0; p < r.Range(1, 5); p++ {
 				ph := c19Phase{AdvanceSec: []int{0, 1, 5, 600, 1500, 3600}[r.Intn(6)]}
 				for k := 0; k < r.Range(1, 6); k++ {
